@@ -31,6 +31,12 @@ Theorem C20_mock_history_last_drawn : forall ops d,
   forall p, get_pixel d p = Ok (if in_displayb p then last_write p (flat_map requested ops) else None).
 Proof. exact mock_history_draws. Qed.
 
+Theorem C20_history_from_any_state : forall d ops d',
+  run d ops = Ok d' ->
+  forall p c, get_pixel d p = Ok c ->
+    get_pixel d' p = Ok (if in_displayb p then match last_event p (flat_map events ops) with Some v => v | None => c end else None).
+Proof. exact history_from_any_state. Qed.
+
 (* get_pixel is total (the index never leaves the array) and None outside the display, in every state *)
 Theorem C20_get_pixel_outside_none : forall d p, ~ in_display p -> get_pixel d p = Ok None.
 Proof. exact get_pixel_outside. Qed.
@@ -168,6 +174,17 @@ Theorem C20_character_sets :
   all_mappings = [map_BinaryColor; map_Gray2; map_Gray4; map_Gray8; map_Rgb332; map_Rgb444; map_Rgb555; map_Bgr555;
                   map_Rgb565; map_Bgr565; map_Rgb888; map_Bgr888].
 Proof. exact character_sets. Qed.
+
+(* Debug never panics: every raw value of every colour type has a character (its own or '?') *)
+Theorem C20_color_to_char_total : forall m v,
+  In m all_mappings -> 0 <= v < m_nvalues m -> exists ch, color_to_char m v = Ok ch.
+Proof. exact color_to_char_total. Qed.
+
+Theorem C20_debug_rows_total : forall m d,
+  In m all_mappings ->
+  (forall p v, get_pixel d p = Ok (Some v) -> 0 <= v < m_nvalues m) ->
+  exists rows, debug_rows m d = Ok rows /\ (length rows <= NS)%nat /\ Forall (fun r => length r = NS) rows.
+Proof. exact debug_rows_total. Qed.
 
 (* Debug -> from_pattern: same 4096 cells *)
 Theorem C20_debug_then_pattern : forall m d,
